@@ -1,1 +1,224 @@
-(* placeholder, being written *)
+(* C07, arithmetic part: "time_point arithmetic is exact and totally ordered", sorted insertion with
+   FIFO ties.  Theorems about the models coq/Arith/MonoClockDefs.v (monotonic_clock::time_point) and
+   coq/Arith/SortedInsertDefs.v (enqueue of the timed contexts, intrusive_heap), restated from
+   Arith/MonoClockProofs.v / Arith/SortedInsertProofs.v.  Tie: K3, harness/k3_c07.cpp. *)
+From Coq Require Import ZArith List Bool Permutation.
+From V Require Import Arith.MonoClockDefs Arith.MonoClockProofs Arith.SortedInsertDefs Arith.SortedInsertProofs.
+Import ListNotations.
+Local Open Scope Z_scope.
+
+Theorem C07_normalize_value :
+  forall t, value (normalize t) = value t.
+Proof. exact normalize_value. Qed.
+Print Assumptions C07_normalize_value.
+
+Theorem C07_normalize_canonical :
+  forall t, canonical (normalize t).
+Proof. exact normalize_canonical. Qed.
+Print Assumptions C07_normalize_canonical.
+
+Theorem C07_from_s_ns_spec :
+  forall s n, canonical (from_s_ns s n) /\ value (from_s_ns s n) = s * ns_per_sec + n.
+Proof. exact from_s_ns_spec. Qed.
+Print Assumptions C07_from_s_ns_spec.
+
+Theorem C07_canonical_unique :
+  forall a b, canonical a -> canonical b -> value a = value b -> a = b.
+Proof. exact canonical_unique. Qed.
+Print Assumptions C07_canonical_unique.
+
+Theorem C07_lt_iff :
+  forall a b, canonical a -> canonical b -> (lt a b = true <-> value a < value b).
+Proof. exact lt_iff. Qed.
+Print Assumptions C07_lt_iff.
+
+Theorem C07_eqb_iff :
+  forall a b, canonical a -> canonical b -> (eqb a b = true <-> value a = value b).
+Proof. exact eqb_iff. Qed.
+Print Assumptions C07_eqb_iff.
+
+Theorem C07_lt_trichotomy :
+  forall a b, canonical a -> canonical b ->
+    (lt a b = true  /\ a <> b /\ lt b a = false) \/
+    (lt a b = false /\ a = b  /\ lt b a = false) \/
+    (lt a b = false /\ a <> b /\ lt b a = true).
+Proof. exact lt_trichotomy. Qed.
+Print Assumptions C07_lt_trichotomy.
+
+Theorem C07_lt_trans :
+  forall a b c, canonical a -> canonical b -> canonical c ->
+    lt a b = true -> lt b c = true -> lt a c = true.
+Proof. exact lt_trans. Qed.
+Print Assumptions C07_lt_trans.
+
+Theorem C07_le_iff :
+  forall a b, canonical a -> canonical b -> (le a b = true <-> value a <= value b).
+Proof. exact le_iff. Qed.
+Print Assumptions C07_le_iff.
+
+Theorem C07_add_dur_value :
+  forall t d, canonical t ->
+    value (add_dur t d) = value t + 100 * d /\ canonical (add_dur t d).
+Proof. exact add_dur_value. Qed.
+Print Assumptions C07_add_dur_value.
+
+Theorem C07_sub_dur_value :
+  forall t d, canonical t ->
+    value (sub_dur t d) = value t - 100 * d /\ canonical (sub_dur t d).
+Proof. exact sub_dur_value. Qed.
+Print Assumptions C07_sub_dur_value.
+
+Theorem C07_add_sub_roundtrip :
+  forall t d, canonical t -> sub_dur (add_dur t d) d = t.
+Proof. exact add_sub_roundtrip. Qed.
+Print Assumptions C07_add_sub_roundtrip.
+
+Theorem C07_sub_add_roundtrip :
+  forall t d, canonical t -> add_dur (sub_dur t d) d = t.
+Proof. exact sub_add_roundtrip. Qed.
+Print Assumptions C07_sub_add_roundtrip.
+
+Theorem C07_add_dur_lt_mono :
+  forall t d1 d2, lt (add_dur t d1) (add_dur t d2) = true <-> d1 < d2.
+Proof. exact add_dur_lt_mono. Qed.
+Print Assumptions C07_add_dur_lt_mono.
+
+Theorem C07_diff_exact :
+  forall a b, 100 * diff a b = (value a - value b) - Z.rem (ns a - ns b) 100.
+Proof. exact diff_exact. Qed.
+Print Assumptions C07_diff_exact.
+
+Theorem C07_diff_error_bound :
+  forall a b, Z.abs (100 * diff a b - (value a - value b)) < 100.
+Proof. exact diff_error_bound. Qed.
+Print Assumptions C07_diff_error_bound.
+
+Theorem C07_diff_add_any :
+  forall t d, diff (add_dur t d) t = d.
+Proof. exact diff_add_any. Qed.
+Print Assumptions C07_diff_add_any.
+
+Theorem C07_diff_antisym :
+  forall a b, diff a b = - diff b a.
+Proof. exact diff_antisym. Qed.
+Print Assumptions C07_diff_antisym.
+
+Theorem C07_diff_mono :
+  forall a a' b, canonical a -> canonical a' ->
+    value a <= value a' -> diff a b <= diff a' b.
+Proof. exact diff_mono. Qed.
+Print Assumptions C07_diff_mono.
+
+Theorem C07_diff_exact_on_grid :
+  forall a b, Z.rem (ns a) 100 = 0 -> Z.rem (ns b) 100 = 0 ->
+    100 * diff a b = value a - value b.
+Proof. exact diff_exact_on_grid. Qed.
+Print Assumptions C07_diff_exact_on_grid.
+
+Theorem C07_diff_trunc_iff :
+  forall a b,
+    diff a b = Z.quot (value a - value b) 100 <->
+    (Z.rem (ns a - ns b) 100 = 0 \/
+     (0 <= value a - value b /\ 0 <= ns a - ns b) \/
+     (value a - value b <= 0 /\ ns a - ns b <= 0)).
+Proof. exact diff_trunc_iff. Qed.
+Print Assumptions C07_diff_trunc_iff.
+
+(* REFUTED: operator-(time_point, time_point) is not the true difference truncated toward zero
+   (witness (1 s, 0 ns) - (0 s, 1 ns) = 10 000 000 ticks; the true difference is 9 999 999.99 ticks). *)
+Theorem C07_diff_not_trunc_refuted :
+  exists a b, canonical a /\ canonical b /\ diff a b <> Z.quot (value a - value b) 100.
+Proof. exact diff_not_trunc_refuted. Qed.
+Print Assumptions C07_diff_not_trunc_refuted.
+
+Theorem C07_insert_timed_split :
+  forall x l,
+    sorted_due l ->
+    exists l1 l2,
+      l = l1 ++ l2 /\
+      insert_timed x l = l1 ++ x :: l2 /\
+      Forall (fun y => due y <= due x) l1 /\
+      Forall (fun y => due x < due y) l2.
+Proof. exact insert_timed_split. Qed.
+Print Assumptions C07_insert_timed_split.
+
+Theorem C07_insert_timed_sorted :
+  forall x l, sorted_due l -> sorted_due (insert_timed x l).
+Proof. exact insert_timed_sorted. Qed.
+Print Assumptions C07_insert_timed_sorted.
+
+Theorem C07_insert_timed_perm :
+  forall x l, Permutation (x :: l) (insert_timed x l).
+Proof. exact insert_timed_perm. Qed.
+Print Assumptions C07_insert_timed_perm.
+
+Theorem C07_insert_all_stable_sort :
+  forall xs,
+    sorted_due (insert_all xs []) /\
+    Permutation xs (insert_all xs []) /\
+    (forall k, with_due k (insert_all xs []) = with_due k xs).
+Proof. exact insert_all_stable_sort. Qed.
+Print Assumptions C07_insert_all_stable_sort.
+
+Theorem C07_stable_sort_unique :
+  forall l1 l2,
+    sorted_due l1 -> sorted_due l2 ->
+    (forall k, with_due k l1 = with_due k l2) ->
+    l1 = l2.
+Proof. exact stable_sort_unique. Qed.
+Print Assumptions C07_stable_sort_unique.
+
+Theorem C07_heap_insert_eq :
+  forall x l, heap_insert x l = insert_timed x l.
+Proof. exact heap_insert_eq. Qed.
+Print Assumptions C07_heap_insert_eq.
+
+Theorem C07_heap_pop_min :
+  forall l h tl,
+    sorted_due l ->
+    heap_pop l = Some (h, tl) ->
+    l = h :: tl /\
+    (forall y, In y l -> due h <= due y) /\
+    sorted_due tl.
+Proof. exact heap_pop_min. Qed.
+Print Assumptions C07_heap_pop_min.
+
+Theorem C07_fifo_pop :
+  forall xs h tl,
+    heap_pop (insert_all xs []) = Some (h, tl) ->
+    exists p q,
+      xs = p ++ h :: q /\
+      Forall (fun y => due h < due y) p /\
+      Forall (fun y => due h <= due y) q.
+Proof. exact fifo_pop. Qed.
+Print Assumptions C07_fifo_pop.
+
+Theorem C07_heap_remove_sorted :
+  forall i l, sorted_due l -> sorted_due (heap_remove i l).
+Proof. exact heap_remove_sorted. Qed.
+Print Assumptions C07_heap_remove_sorted.
+
+Theorem C07_heap_remove_present :
+  forall i l x,
+    NoDup (map id l) -> In x l -> id x = i ->
+    exists l1 l2, l = l1 ++ x :: l2 /\ heap_remove i l = l1 ++ l2.
+Proof. exact heap_remove_present. Qed.
+Print Assumptions C07_heap_remove_present.
+
+Theorem C07_requeue_sorted :
+  forall i now l, sorted_due l -> sorted_due (requeue i now l).
+Proof. exact requeue_sorted. Qed.
+Print Assumptions C07_requeue_sorted.
+
+Theorem C07_requeue_NoDup_ids :
+  forall i now l, NoDup (map id l) -> NoDup (map id (requeue i now l)).
+Proof. exact requeue_NoDup_ids. Qed.
+Print Assumptions C07_requeue_NoDup_ids.
+
+(* the hypotheses are met by concrete non-trivial cases *)
+Example C07_ex_normalize : from_s_ns (-1) 1000000001 = mk_tp 0 1.
+Proof. vm_compute. reflexivity. Qed.
+Example C07_ex_diff_witness : diff (mk_tp 1 0) (mk_tp 0 1) = 10000000 /\ Z.quot (value (mk_tp 1 0) - value (mk_tp 0 1)) 100 = 9999999.
+Proof. vm_compute. split; reflexivity. Qed.
+Example C07_ex_insert_fifo : map id (insert_all [(30, 0%nat); (10, 1%nat); (10, 2%nat); (5, 3%nat); (10, 4%nat)] []) = [3; 1; 2; 4; 0]%nat.
+Proof. vm_compute. reflexivity. Qed.
